@@ -310,3 +310,43 @@ LEVEL_NOTE['C06'] = 'Trusted: coordinator model, sem_getvalue on an independentl
 LEVEL_NOTE['C07'] = 'Trusted: coordinator model, independent name computation, grace-period logic (one-sided). Two known findings (first-use race window, unsized segment after a kill) are excluded by construction when their probes still fail.'
 TECHNIQUE['C06'] = 'stateful property-based testing across processes (rapidcheck histories, reference model) + fault injection (kill-point enumeration)'
 TECHNIQUE['C07'] = 'stateful property-based testing across processes + enumerated race positions (pause points) and kill points'
+
+# ---- netx: socket harness with libc fault wrappers (C09, C10, C19) -----------------------------------------
+harness('netx', 'engines/netx/netx.cpp', 'gcc-asan-wrapnet', libs='-lrapidcheck -lcrypto')
+_net_assume = ['faults are injected by link-time wrappers around the libc calls made by psocket.o (send, recv, sendto, recvfrom, poll, connect, accept, ...); injected EINTR/EAGAIN are side-effect free, SHORT(n) performs the real call with a reduced length',
+               'the peer endpoint is a raw BSD socket driven by a harness thread and is not wrapped; loopback only, ephemeral ports',
+               'UDP loss or lateness is tolerated and counted, never a violation; only lower bounds on elapsed time are asserted']
+reg(Prop('C09', 'fault_enumeration', [
+    Sub('rand', 'netx', shards=(12, 16), cases=(40, 1500), maxsize=(60, 100), env={'VERIF_SUB': 'rand'}, timeout=(900, 3600)),
+    Sub('enum', 'netx', shards=(4, 8), cases=(1, 1), env={'VERIF_SUB': 'enum'}, timeout=(900, 3600)),
+], rule='transfer cases: IPv4/IPv6 loopback, TCP (library as client or as accepting server) and UDP, blocking and non-blocking, optional small send buffer, peer behaviour fast/slow/burst, sequences of send(len)/receive(buflen)/peer-sends with sizes from 1, 2, 1023, 1024, 4096, 65507, 70000, 1 MiB and random, '
+        '"peer goes away then keep writing", plus a generated fault plan (call, k-th invocation, EINTR|EAGAIN|SHORT(n), burst 1-5) over send, recv, sendto, recvfrom, poll, connect, accept. enum sub-run: every single-fault plan (call x k<=6 x fault) on three base transfers. '
+        'Oracle: position-dependent stream pattern: every successful receive returns exactly the next bytes of the peer stream; after shutdown the peer received exactly the bytes reported as sent; datagrams equal a sent datagram cut to the buffer, sender address/port as bound; '
+        'a blocking call never reports would-block/EINTR/EAGAIN; non-blocking calls fail only with would-block; writing to a closed peer ends in an error, never SIGPIPE. '
+        'Non-trivial = a short transfer or an injected fault consumed inside a blocking call, and >= 2 receives; distinct = distinct case text.',
+    assumptions=_net_assume, corpus_harness='netx', design_ref='4/C09, 3.3'))
+reg(Prop('C10', 'exploration', [
+    Sub('rand', 'netx', shards=(16, 16), cases=(250, 3000), maxsize=(60, 100), env={'VERIF_SUB': 'rand'}, timeout=(900, 3600)),
+], rule='state-machine sequences over 3 library sockets (stream/datagram, IPv4/IPv6) and raw peers created on demand: new, bind, listen, connect (listening port | closed port | non-blocking), accept (with / without a pending peer), send, receive (with / without data), shutdown, close, close again, every I/O call after close, '
+        'setters blocking / timeout {-5,0,1,3,20,50} / keepalive / backlog before and after listen, getters after every command. Oracle: reference state machine for the getters; after close every I/O call fails with not-available and the wrappers see zero system calls; second close TRUE with zero calls; '
+        'blocked calls that cannot proceed fail with timed-out not before T (monotonic clock, lower bound only); non-blocking ones with would-block (connect: in-progress) without calling poll; FD_CLOEXEC on new and accepted descriptors. '
+        'Non-trivial = sequence with an I/O call after close and a timed or non-blocking call that could not proceed; distinct = distinct case text.',
+    assumptions=_net_assume + ['keepalive setter after close is not asserted (unspecified)'], corpus_harness='netx', design_ref='4/C10'))
+reg(Prop('C19', 'fault_enumeration', [
+    Sub('enum', 'netx', shards=(8, 8), cases=(1, 1), env={'VERIF_SUB': 'enum'}, timeout=(900, 3600)),
+    Sub('rand', 'netx', shards=(8, 16), cases=(25, 600), maxsize=(60, 100), env={'VERIF_SUB': 'rand'}, timeout=(900, 3600)),
+], rule='call scenarios per blocking call site: p_uthread_sleep(1|20|60 ms); semaphore acquire / shm lock released by a helper thread after a delay; p_semaphore_new / p_shm_new (create and open); blocking TCP transfer (connect, accept, receive, send into a slow reader); accept and receive waiting for a late peer - '
+        'combined with (a) a signal storm (POSIX timer aimed at the calling thread, handler without SA_RESTART, period 200 us - 20 ms) and (b) an EINTR plan on the libc call the scenario blocks in. enum sub-run: EINTR at invocation k<=5 (burst 1|3) of every blocking call site, and every site x 5 storm periods. '
+        'Oracle: outcome equals the signal-free outcome: sleep returns 0 only after >= the requested time; acquire/lock return TRUE, not before the unit was released, exactly one unit consumed; objects created and usable; socket data intact (C09 stream oracle); never an interrupted-call error. '
+        'Non-trivial = a signal was delivered while the thread was inside the blocking system call, or a planned EINTR was consumed; distinct = distinct case text.',
+    assumptions=_net_assume + ['wrapper EINTRs follow the POSIX convention of each call (clock_nanosleep reports through its return value, errno untouched)', 'signal storms stop after 4000 signals so that they cannot starve the target thread'],
+    corpus_harness='netx', design_ref='4/C19, 3.3'))
+ENGINES.append(dict(name='netx', path='engines/netx', serves_properties=['C09', 'C10', 'C19'], kind_free_text='socket harness with link-time fault wrappers (EINTR/EAGAIN/short transfers as generated plans), raw peer thread, signal storms'))
+LEVEL_TEXT['C09'] = 'Generated transfers with generated fault plans checked against a byte-stream / datagram oracle; all single-fault plans on base transfers are enumerated.'
+LEVEL_TEXT['C10'] = 'Model-based command sequences on sockets with getter model, closed-state and timeout/non-blocking oracles, system-call counting through wrappers.'
+LEVEL_TEXT['C19'] = 'Every blocking call site is run under enumerated single-EINTR plans and under real signal storms; the outcome must equal the signal-free outcome.'
+for _p in ('C09', 'C10', 'C19'):
+    LEVEL_NOTE[_p] = 'Trusted: fault wrappers (engines/netx/netx.cpp), raw-socket peer, CLOCK_MONOTONIC lower bounds. Loopback only.'
+TECHNIQUE['C09'] = 'property-based testing with fault injection (generated EINTR/EAGAIN/short-transfer plans) against a stream/datagram oracle; single-fault enumeration'
+TECHNIQUE['C10'] = 'stateful property-based testing (rapidcheck) against a reference state machine, with system-call counting'
+TECHNIQUE['C19'] = 'fault injection enumeration (EINTR at every k-th invocation per call site) + generated signal storms, metamorphic oracle (same outcome as without signals)'
